@@ -284,8 +284,14 @@ func (ex *Exec) enterLoop(fr *Frame, l *loopInfo, st *State) *State {
 	// 1. invariants on entry
 	if l.spec != nil {
 		for i, c := range l.spec.Invariants {
-			g := ex.evalBool(fr, c.Expr, st, ex.oldFor(fr), nil)
-			ex.oblige(st, "inv-entry", fmt.Sprintf("inv-entry(%d)[%s]", l.ordinal, clauseLabel(c, i)), g, c.Tags, pos, c.Text)
+			cj := ex.rootCtx(fr, st, ex.oldFor(fr), nil).conjuncts(c.Expr)
+			for j, x := range cj {
+				nm := fmt.Sprintf("inv-entry(%d)[%s]", l.ordinal, clauseLabel(c, i))
+				if len(cj) > 1 {
+					nm = fmt.Sprintf("inv-entry(%d)[%s.%d]", l.ordinal, clauseLabel(c, i), j+1)
+				}
+				ex.oblige(st, "inv-entry", nm, x.T, c.Tags, pos, "invariant "+x.Text)
+			}
 		}
 	}
 	// 2. find the cells the body may write (dry runs)
@@ -534,8 +540,14 @@ func (ex *Exec) succ(fr *Frame, from, to *ssa.BasicBlock, st *State, cond Term, 
 			}
 			if l.spec != nil {
 				for i, c := range l.spec.Invariants {
-					g := ex.evalBool(fr, c.Expr, ns, ex.oldFor(fr), nil)
-					ex.oblige(ns, "inv-keep", fmt.Sprintf("inv-keep(%d)[%s]", l.ordinal, clauseLabel(c, i)), g, c.Tags, pos, c.Text)
+					cj := ex.rootCtx(fr, ns, ex.oldFor(fr), nil).conjuncts(c.Expr)
+					for j, x := range cj {
+						nm := fmt.Sprintf("inv-keep(%d)[%s]", l.ordinal, clauseLabel(c, i))
+						if len(cj) > 1 {
+							nm = fmt.Sprintf("inv-keep(%d)[%s.%d]", l.ordinal, clauseLabel(c, i), j+1)
+						}
+						ex.oblige(ns, "inv-keep", nm, x.T, c.Tags, pos, "invariant "+x.Text)
+					}
 				}
 				if l.hasDecr {
 					v := ex.coerceInt(ex.evalSpec(fr, l.spec.Decreases, ns, ex.oldFor(fr), nil))
